@@ -771,7 +771,9 @@ func compileAssignStmtLeft(context *funcContext, stmt *ast.AssignStmt) (int, []*
 			acs = append(acs, &assigncontext{ec, 0, 0, false, false})
 		case *ast.AttrGetExpr:
 			ac := &assigncontext{&expcontext{ecTable, regNotDefined, 0}, 0, 0, false, false}
-			compileExprWithKMVPropagation(context, st.Object, &reg, &ac.ec.reg)
+			// the table operand of SETTABLE is a register, never a constant:
+			// ("s").k = v must index the string, not register number <constant index>
+			compileExprWithMVPropagation(context, st.Object, &reg, &ac.ec.reg)
 			if assignedLocalReg(context, stmt, ac.ec.reg) {
 				context.Code.AddABC(OP_MOVE, reg, ac.ec.reg, 0, sline(st.Object))
 				ac.ec.reg = reg
